@@ -2,7 +2,7 @@
 # tools/try_seed.sh <patch.diff> <check id>... : applies a seeded change to /repo, runs the given
 # quick checks, and ALWAYS restores /repo's tracked files afterwards. Prints one line per check.
 set -u
-patch="$1"; shift
+patch="$(realpath "$1")"; shift
 cd /repo || exit 2
 if ! git diff --quiet; then echo "refusing: /repo has uncommitted changes"; exit 2; fi
 if ! git apply --check "$patch" 2>/dev/null; then echo "patch does not apply: $patch"; exit 2; fi
